@@ -226,6 +226,8 @@ class Sym:
             pe = self.place_expr(env, s["place"])
             if s["bk"] != "mut" and pe[0] == "lv":
                 v = env["locals"].get(pe[1])
+                if v is None and 1 <= pe[1] <= self.nparams:
+                    v = ("param", pe[1])
                 if v is not None and v[0] in ("call", "const", "cpath", "bin", "cast", "field", "variant", "load", "param", "index", "cindex"):
                     # shared reference to a temporary holding a known value
                     return ("ref", False, ("val", v))
@@ -235,9 +237,17 @@ class Sym:
         if rv == "copy_for_deref":
             return self.read(env, s["place"])
         if rv == "discr":
-            e = ("discr", self.read(env, s["place"]))
+            v = self.read(env, s["place"])
+            e = ("discr", v)
             if "variants" in s:
-                self.enums[e] = (s.get("enum"), {int(k): v for k, v in s["variants"].items()})
+                names = {int(k): nm for k, nm in s["variants"].items()}
+                self.enums[e] = (s.get("enum"), names)
+                # discriminant of a value built in this function: fold
+                if v[0] == "agg" and v[1].startswith("adt:"):
+                    vn = v[1].rsplit("::", 1)[-1]
+                    for d, nm in names.items():
+                        if nm == vn:
+                            return ("const", d)
             return e
         if rv == "agg":
             kind = s["agg"]
